@@ -113,7 +113,8 @@ class StreamRun(Case):
         e.mode = mk.mode
         e.n = mk.length("n")
         e.v = mk.series("v", e.n)
-        e.t = mk.times_ns("t", e.n, min_step_ns=None)
+        # nat=True: stamps may be missing (NaT); a missing stamp satisfies no window bound
+        e.t = mk.times_ns("t", e.n, min_step_ns=None, nat=bool(self.params.get("nat")))
         if self.params["aux"] == "all":
             e.z, e.lat, e.lon = mk.series("z", e.n), mk.series("lat", e.n), mk.series("lon", e.n)
         kinds = {w for (w, _s) in SHAPES[self.params["shape"]]}
@@ -137,10 +138,12 @@ class StreamRun(Case):
     def grid(self, tier, rng):
         tabs = [([1.0, 2.0, 9.0, 3.0], [0, 10, 20, 30]), ([1.0, None, 2.0], [5, 6, 100]), ([4.0], [50]), ([], [])]
         wins = [(10, 30), (0, 1000), (6, 6), (25, 7)]
+        if self.params.get("nat"):
+            tabs = [([1.0, 2.0, 9.0, 3.0, 5.0], [0, None, 20, 30, None]), ([1.0, None, 2.0], [None, 6, 100]), ([4.0], [None])] + tabs[:2]
         for vals, times in tabs:
             for (a, b) in wins:
                 n = len(vals)
-                v = {"n": n, "v": vals, "t": [t_ * 10**9 for t_ in times], "z": [1.5] * n, "lat": [2.5] * n, "lon": [3.5] * n, "start": a, "end": b}
+                v = {"n": n, "v": vals, "t": [None if t_ is None else t_ * 10**9 for t_ in times], "z": [1.5] * n, "lat": [2.5] * n, "lon": [3.5] * n, "start": a, "end": b}
                 yield v
 
     def conformance(self, T, values):
@@ -178,7 +181,7 @@ class StreamRun(Case):
             def lst(a):
                 a = np.asarray(a)
                 if a.dtype.kind == "M":
-                    return [int(x) for x in a.astype("datetime64[ns]").astype("int64")]
+                    return [None if nat else int(x) for x, nat in zip(a.astype("datetime64[ns]").astype("int64"), np.isnat(a))]
                 return [None if (isinstance(x, float) and x != x) else x for x in a.tolist()]
 
             rres = [(cr.stream_id, len(cr.results), [bool(b) for b in np.asarray(cr.subset_indexes).tolist()], lst(cr.data), lst(cr.tinp), lst(cr.zinp), lst(cr.lat), lst(cr.lon)) for cr in rout]
@@ -236,6 +239,9 @@ class StreamRun(Case):
             return list(st.run(config))
         cols = {"time": e.t, "v": e.v}
         cols.update(aux)
+        if self.params.get("oddcols"):
+            cols[0] = e.v
+            cols[("p", 1)] = e.v
         df = pd.DataFrame(cols)
         if self.params.get("index") == "labels":
             df = df.set_axis([100 - 7 * i for i in range(len(df))])
@@ -247,6 +253,8 @@ class StreamRun(Case):
     def in_window(self, e, wkind, i):
         t = e.t.val(i)
         c = []
+        if self.params.get("nat") and wkind != "none":
+            c.append(alg.not_(e.t.nan(i)))
         if wkind in ("both", "start"):
             c.append(alg.ge(t, e.start.val))
         if wkind in ("both", "end"):
@@ -290,6 +298,10 @@ class StreamRun(Case):
         elif kind == "pandas":
             cols = {"time": e.t, "v": e.v}
             cols.update(aux)
+            if self.params.get("oddcols"):
+                # columns the configuration does not mention, labelled by things that are not strings
+                cols[0] = e.v
+                cols[("p", 1)] = e.v
             g = mod.__dict__
             real_pd = g["pd"]
 
@@ -334,7 +346,7 @@ class StreamRun(Case):
 
         cv = lambda x: (alg.as_concrete(x) if alg.is_sym(x) else x)  # noqa: E731
         n = cv(e.n)
-        t = [int(cv(e.t.val(i))) for i in range(n)]
+        t = [None if cv(e.t.nan(i)) is True else int(cv(e.t.val(i))) for i in range(n)]
 
         def column(col):
             return [None if cv(col.nan(i)) else float(cv(col.val(i))) for i in range(n)]
@@ -346,6 +358,8 @@ class StreamRun(Case):
 
         def inw(w, i):
             ok = True
+            if w != "none" and t[i] is None:
+                return False
             if w in ("both", "start"):
                 ok = ok and t[i] >= int(cv(e.start.val))
             if w in ("both", "end"):
@@ -355,7 +369,7 @@ class StreamRun(Case):
         def as_list(a):
             a = np.asarray(a.to_numpy() if hasattr(a, "to_numpy") else a)
             if a.dtype.kind == "M":
-                return [int(x) for x in a.astype("datetime64[ns]").astype("int64")]
+                return [None if nat else int(x) for x, nat in zip(a.astype("datetime64[ns]").astype("int64"), np.isnat(a))]
             return [None if (isinstance(x, float) and x != x) else (float(x) if isinstance(x, (int, float, np.number)) else x) for x in a.tolist()]
 
         exp = self.expected_calls()
@@ -709,6 +723,12 @@ def cases():  # noqa: F811
         cs.append(StreamRun(stream=stream, shape="one-window", aux="none"))
     cs.append(StreamRun(stream="pandas", shape="one-window", aux="all", index="labels"))
     cs.append(StreamRun(stream="pandas", shape="faults", aux="all", index="labels"))
+    for shape in ("faults", "faults-first", "one-window"):
+        cs.append(StreamRun(stream="pandas", shape=shape, aux="all", oddcols=True))
+    # time axes with missing stamps (NaT): a missing stamp lies in no bounded window
+    for stream in ("numpy", "pandas"):
+        for shape in ("one-window", "start-only", "end-only", "no-window"):
+            cs.append(StreamRun(stream=stream, shape=shape, aux="all", nat=True))
     cs.append(CallRun())
     cs.append(FrontEnds())
     return cs
